@@ -345,9 +345,18 @@ def h_param_roundtrip(shape):
         tmpl = build_program(inp, P, env="declare")
         obs = [("param:template_is_parametrized", tmpl.is_parametrized())]
         try:
+            # decoding is independent of whatever was decoded before in this process: an unrelated sequence whose variable
+            # has the same NAME (other type and size) goes through the same decoder first
+            first = P["vars"][0]
+            other = l2.new_seq("mock")
+            other.declare_channel("x", "rydberg_global")
+            ov = other.declare_variable(first[0], size=first[2] + 2, dtype=(float if first[1] == "int" else int))
+            other.delay(ov[0] if first[1] != "int" else 16, "x")
             if shape["codec"] == "abstract":
+                Sequence.from_abstract_repr(other.to_abstract_repr())
                 t2 = Sequence.from_abstract_repr(tmpl.to_abstract_repr())
             else:
+                legacy_loads(other._serialize())
                 t2 = legacy_loads(tmpl._serialize())
         except Exception as e:  # noqa: BLE001  (a document the serializer produced must decode)
             return obs + [(shape["codec"] + ":param_roundtrip_completes", False)]
